@@ -1,6 +1,7 @@
 (* C08 bitmap1024: what the driver evaluates on every observed case *)
 From Coq Require Import List Bool ZArith NArith Lia.
-Require Export BitSet C08_Model C08_Spec.
+Require Export BitSet C08_Model C08_Spec C08_Lit.
+Require Import C08_Word C08_Iter C08_Set.
 Import ListNotations.
 Open Scope Z_scope.
 
@@ -38,48 +39,53 @@ Definition case_accept (c : case) : bool :=
   end.
 
 (* ---------------- holds: the property's clauses on the observation ---------------- *)
-Definition count_if (p : Z -> bool) (l : list Z) : Z := Z.of_nat (length (filter p l)).
-Definition same_set (p q : Z -> bool) (dom : list Z) : bool := forallb (fun j => Bool.eqb (p j) (q j)) dom.
-Definition in1024 (i : Z) : bool := (0 <=? i) && (i <? 1024).
-Definition dom1024 := zseq 0 1024.
-Definition dom64 := zseq 0 64.
-
 Definition case_holds (c : case) : bool :=
   match c with
   | CIter64 ty rev magic w s pos add n o => wfw w && out_eqb o (spec_iter ty rev (members64 w) s pos add n)
   | CIter1024 ty rev magic ws s pos add n o => wfws ws && out_eqb o (spec_iter ty rev (members1024 ws) s pos add n)
   | CGet64 ty rev magic w n o => wfw w && gout_eqb o (spec_getn ty rev (members64 w) n)
   | CGet1024 ty rev magic ws n o => wfws ws && gout_eqb o (spec_getn ty rev (members1024 ws) n)
-  | CPoint k ws i r =>
-      wfws ws && Nat.eqb (length r) 16 &&
-      same_set (mem1024 r)
-        (fun j => match k with
-                  | PSetI32 | PSetI16 => (in1024 i && Z.eqb j i) || mem1024 ws j
-                  | PUnsetI32 | PUnsetI16 => negb (in1024 i && Z.eqb j i) && mem1024 ws j
-                  end) dom1024
+  | CPoint k ws i r => wfws ws && Nat.eqb (length r) 16 && same_set (mem1024 r) (point_expect k ws i) dom1024
   | CLen ws len nlen =>
       wfws ws && Z.eqb len (count_if (mem1024 ws) dom1024) && Z.eqb nlen (count_if (fun j => negb (mem1024 ws j)) dom1024)
   | CReverse a r => wfws a && Nat.eqb (length r) 16 && same_set (mem1024 r) (fun j => negb (mem1024 a j)) dom1024
-  | CBin k a b r =>
-      wfws a && wfws b && Nat.eqb (length r) 16 &&
-      same_set (mem1024 r)
-        (fun j => match k with
-                  | BAnd => mem1024 a j && mem1024 b j
-                  | BOr => mem1024 a j || mem1024 b j
-                  | BOrThenReverse => negb (mem1024 a j || mem1024 b j)
-                  end) dom1024
+  | CBin k a b r => wfws a && wfws b && Nat.eqb (length r) 16 && same_set (mem1024 r) (bin_expect k a b) dom1024
   | CEqual a b r => wfws a && wfws b && Bool.eqb r (same_set (mem1024 a) (mem1024 b) dom1024)
-  | CWord k w arg r =>
-      wfw w && (0 <=? arg) &&
-      same_set (mem64 r)
-        (fun j => match k with
-                  | WSet => ((arg <=? 63) && Z.eqb j arg) || mem64 w j
-                  | WUnset => negb ((arg <=? 63) && Z.eqb j arg) && mem64 w j
-                  | WAnd => mem64 w j && mem64 (Z.to_N arg) j
-                  | WOr => mem64 w j || mem64 (Z.to_N arg) j
-                  | WReverse => negb (mem64 w j)
-                  end) dom64
+  | CWord k w arg r => wfw w && (0 <=? arg) && same_set (mem64 r) (word_expect k w arg) dom64
   | CWordLen w len nlen full =>
       wfw w && Z.eqb len (count_if (mem64 w) dom64) && Z.eqb nlen (count_if (fun j => negb (mem64 w j)) dom64)
       && Bool.eqb full (Z.eqb (count_if (mem64 w) dom64) 64)
   end.
+
+(* ---------------- accept implies holds: the model meets the specification on every input ---------------- *)
+Theorem case_sound : forall c, case_accept c = true -> case_holds c = true.
+Proof.
+  intros [ty rev magic w s pos add n o | ty rev magic ws s pos add n o | ty rev magic w n o | ty rev magic ws n o
+         | k ws i r | ws len nlen | a r | k a b r | a b r | k w arg r | w len nlen full];
+    cbn [case_accept case_holds]; intros H.
+  - apply andb_prop in H. destruct H as [Hw Ho]. apply out_eqb_eq in Ho. subst o. rewrite Hw. cbn [andb].
+    rewrite (iter64_spec ty add rev magic w s pos n Hw). apply out_eqb_refl.
+  - apply andb_prop in H. destruct H as [Hw Ho]. apply out_eqb_eq in Ho. subst o. rewrite Hw. cbn [andb].
+    rewrite (iter1024_spec ty rev magic ws s pos add n Hw). apply out_eqb_refl.
+  - apply andb_prop in H. destruct H as [Hw Ho]. apply gout_eqb_eq in Ho. subst o. rewrite Hw. cbn [andb].
+    rewrite (getn64_spec ty rev magic w n Hw). apply gout_eqb_refl.
+  - apply andb_prop in H. destruct H as [Hw Ho]. apply gout_eqb_eq in Ho. subst o. rewrite Hw. cbn [andb].
+    rewrite (getn1024_spec ty rev magic ws n Hw). apply gout_eqb_refl.
+  - apply andb_prop in H. destruct H as [Hw Hr]. apply nl_eqb_eq in Hr. subst r. rewrite Hw, point_length, point_spec. reflexivity.
+  - apply andb_prop in H. destruct H as [H Hn]. apply andb_prop in H. destruct H as [Hw Hl].
+    apply Z.eqb_eq in Hl. apply Z.eqb_eq in Hn. subst len nlen. rewrite Hw. cbn [andb].
+    rewrite (len1024_members ws Hw), (nlen1024_nonmembers ws Hw). unfold count_if, members1024. fold dom1024.
+    rewrite !Z.eqb_refl. reflexivity.
+  - apply andb_prop in H. destruct H as [Hw Hr]. apply nl_eqb_eq in Hr. subst r. rewrite Hw. unfold reverse1024 at 1.
+    rewrite to_list_length, reverse_set. reflexivity.
+  - apply andb_prop in H. destruct H as [H Hr]. apply andb_prop in H. destruct H as [Ha Hb].
+    apply nl_eqb_eq in Hr. subst r. rewrite Ha, Hb, binop_length, binop_set. reflexivity.
+  - apply andb_prop in H. destruct H as [H Hr]. apply andb_prop in H. destruct H as [Ha Hb].
+    rewrite Ha, Hb. cbn [andb]. rewrite <- (equal1024_spec a b Ha Hb). exact Hr.
+  - apply andb_prop in H. destruct H as [H Hr]. apply andb_prop in H. destruct H as [Hw Ha].
+    apply N.eqb_eq in Hr. subst r. rewrite Hw, Ha. cbn [andb]. apply wordop_spec. now apply Z.leb_le.
+  - apply andb_prop in H. destruct H as [H Hf]. apply andb_prop in H. destruct H as [H Hn]. apply andb_prop in H. destruct H as [Hw Hl].
+    apply Z.eqb_eq in Hl. apply Z.eqb_eq in Hn. subst len nlen. rewrite Hw. cbn [andb].
+    rewrite <- (len64_count w Hw), <- (nlen64_count w Hw), !Z.eqb_refl. cbn [andb].
+    rewrite (len64_count w Hw), <- (full64_count w Hw). exact Hf.
+Qed.
